@@ -1,7 +1,7 @@
 """C03 Optical depth composes additively over contributions and species."""
 import ast
 
-from sa.helpers import (validated, unlicensed, the_return, mkflow, spec, code, one, calls, bind_call, param_env,
+from sa.helpers import (guard_is, same_cond, validated, unlicensed, the_return, mkflow, spec, code, one, calls, bind_call, param_env,
                         loop_matches, fmt, atom_of, unparse, unalloc, call_kw,
                         walk_no_nested)
 from sa.index import AnalysisError
@@ -350,8 +350,8 @@ def rayleigh_weighting(ix, R):
         # licensed skips
         for g in y.guards:
             t = g.text()
-            okg = (fl.tab.equal(g.rf, spec(fl, 'max(model.chemistry.get_gas_mix_profile(gas)) == 0.0', b)) and not g.positive) or \
-                  (fl.tab.equal(g.rf, spec(fl, 'rayleigh_sigma_from_name(gas, wngrid) is not None', b)) and g.positive)
+            okg = guard_is(fl, g, spec(fl, 'max(model.chemistry.get_gas_mix_profile(gas)) == 0.0', b), False) or \
+                guard_is(fl, g, spec(fl, 'rayleigh_sigma_from_name(gas, wngrid) is not None', b), True)
             if not okg:
                 why.append('component skipped under %s' % t)
         R.check('2.ray', 'ALG', site, stmt, not why, key='; '.join(why), detail='; '.join(why),
@@ -425,8 +425,7 @@ def hm_weighting(ix, R):
         if not fl.tab.equal(st.target, spec(fl, 'self.sigma_xsec[i]', b)) or st.op is not None:
             why.append('row target %s' % unparse(st.node))
         lic = [spec(fl, "'%s' not in model.chemistry.activeGases + model.chemistry.inactiveGases" % x, b) for x in ('H', 'e-')]
-        extra = [g for g in st.guards if not (g.early and not g.positive and g.rf is not None and
-                                              any(fl.tab.equal(g.rf, x) for x in lic))]
+        extra = [g for g in st.guards if not (g.early and any(guard_is(fl, g, x, False) for x in lic))]
         if extra:
             why.append('row store is conditional on %s' % [g.text() for g in extra])
         if not loop_matches(fl, st.loops[0], '0', 'self._nlayers'):
